@@ -33,6 +33,27 @@ Theorem C09_rejects_undeclared : forall ep be n,
 Proof. exact rejects_undeclared. Qed.
 Print Assumptions C09_rejects_undeclared.
 
+(* a configuration with several endpoints is accepted exactly when every endpoint is accepted
+   on its own - each against its OWN declared parameters - whatever the order of the endpoints;
+   so a url_pattern using a parameter declared only by ANOTHER endpoint is rejected *)
+Theorem C09_config_conjunction : forall eps,
+  init_config eps = true <-> forall e, In e eps -> exists p k, init (fst e) (snd e) = Accepted p k.
+Proof. exact config_conjunction. Qed.
+Print Assumptions C09_config_conjunction.
+
+Theorem C09_config_order_independent : forall eps eps',
+  Permutation eps eps' -> init_config eps = init_config eps'.
+Proof. exact config_order_independent. Qed.
+Print Assumptions C09_config_order_independent.
+
+Theorem C09_config_rejects_undeclared : forall eps ep be n,
+  In (ep, be) eps ->
+  In n (backend_outputs (clean_path be)) -> seq_ref n = false ->
+  ~ In n (endpoint_params (clean_path ep)) ->
+  init_config eps = false.
+Proof. exact config_rejects_undeclared. Qed.
+Print Assumptions C09_config_rejects_undeclared.
+
 (* the boolean Init oracle evaluated on the implementation's answers states exactly that *)
 Theorem C09_init_oracle_sound : forall declared used accepted,
   spec_init_b declared used accepted = true <-> (Undeclared declared used -> accepted = false).
@@ -135,3 +156,8 @@ Example C09_ex_collision : config_cap "id" = config_cap "Id".
 Proof. vm_compute. reflexivity. Qed.
 Example C09_ex_undeclared : Undeclared ["a"] ["a"; "c"].
 Proof. exists "c". split; [simpl; auto|]. split; [reflexivity|]. simpl. intros [H|[]]. discriminate. Qed.
+Example C09_ex_config_other_endpoints_param :
+  init_config [("/a/{id}", "/o/{id}"); ("/b/{order}", "/o/{id}")] = false /\
+  init_config [("/b/{order}", "/o/{id}"); ("/a/{id}", "/o/{id}")] = false /\
+  init_config [("/a/{id}", "/o/{id}"); ("/b/{order}", "/o/{order}")] = true.
+Proof. vm_compute. auto. Qed.
